@@ -90,9 +90,9 @@ def tryinterrupt_rules(ev, n=N_HANDLERS):
             break
         e = ev[i]
         if e[0] == "result":
-            ended = True
-            i += 1
-            continue
+            # legal results are consumed where a block concludes (below); here the statement ended although no block did
+            fail("any_other_conclusion_ends_the_statement_with_it", f"the statement ended with {e[1]} although no block had just concluded (conditions asked: {[(q[1], q[3]) for q in queried]}, suspended blocks: {sorted(map(str, running))})")
+            break
         if e[0] not in ("call", "send"):
             fail("exactly_one_block_advances_per_time_step", f"unexpected event {e} at a selection point")
             break
@@ -156,6 +156,9 @@ def tryinterrupt_rules(ev, n=N_HANDLERS):
             else:
                 if nxt is None or nxt[0] != "result" or nxt[1] != c:
                     fail("any_other_conclusion_ends_the_statement_with_it", f"block {blk!r} concluded {c}, then {nxt}")
+                else:
+                    i += 1
+                    ended = True
         else:
             fail("exactly_one_block_advances_per_time_step", f"unexpected {outcome}")
             break
